@@ -140,12 +140,13 @@ fn check_where_pair(a: &Value, b: &Value, out: &mut Vec<Violation>, obs: &mut Ob
     if !numeric_mix && a.value_type() != b.value_type() { return; }
     thread_local! { static TABLES: sqlgrep::data_model::Tables = crate::eng::tables_from(crate::monitors::c12::EVERYLINE).ok().expect("everyline table"); }
     // one statement per operator (an error of one operator must not hide the others): SELECT <a op b> FROM everyline, one input line
-    let ask = |op: CompareOperator| -> Result<Option<bool>, String> {
-        let tree = ExpressionTree::Compare { operator: op, left: Box::new(ExpressionTree::Value(a.clone())), right: Box::new(ExpressionTree::Value(b.clone())) };
+    let ask_with = |op: CompareOperator, right: &Value| -> Result<Option<bool>, String> {
+        let tree = ExpressionTree::Compare { operator: op, left: Box::new(ExpressionTree::Value(a.clone())), right: Box::new(ExpressionTree::Value(right.clone())) };
         let stmt = Statement::Select(SelectStatement { projections: vec![("p0".to_owned(), tree)], from: "everyline".to_owned(), filename: None, filter: None, join: None, limit: None, distinct: false });
         let r = TABLES.with(|tables| guard(|| { let mut engine = ExecutionEngine::new(tables, &stmt); engine.execute("x".to_owned(), &ExecutionConfig::default()).map(|o| o.result_row.and_then(|rr| rr.data.into_iter().next()).and_then(|row| row.columns.into_iter().next())).map_err(|e| e.to_string()) }));
         match r { Ok(Ok(Some(Value::Bool(x)))) => Ok(Some(x)), Ok(Ok(Some(Value::Null))) => Ok(None), Ok(Ok(Some(other))) => Err(format!("value {}", show(&other))), Ok(Ok(None)) => Err("no row".into()), Ok(Err(e)) => Err(format!("error {}", e)), Err(p) => Err(p.describe()) }
     };
+    let ask = |op: CompareOperator| ask_with(op, b);
     obs.evals += 1;
     obs.hit("where-pair");
     let r: Vec<Result<Option<bool>, String>> = vec![ask(CompareOperator::LessThan), ask(CompareOperator::Equal), ask(CompareOperator::GreaterThan), ask(CompareOperator::LessThanOrEqual), ask(CompareOperator::GreaterThanOrEqual), ask(CompareOperator::NotEqual)];
@@ -163,6 +164,18 @@ fn check_where_pair(a: &Value, b: &Value, out: &mut Vec<Violation>, obs: &mut Ob
         _ => vec![a.cmp(b)],
     };
     if !wants.contains(&got) { push("where-vs-order", format!("a={} b={}: WHERE says {:?}, the value order says {:?}", show(a), show(b), got, wants)); }
+    // a timestamp against the same instant written as text ('YYYY-MM-DD hh:mm:ss'): the text is read as a timestamp, the
+    // answers are those of the timestamp comparison (sub-second parts of the other operand included)
+    if let (Value::Timestamp(_), RV::Ts(us)) = (a, RV::from_engine(b)) {
+        let c = crate::val::parts_from_ts(us);
+        if c.us == 0 && (0..=9999).contains(&c.y) {
+            let text = Value::String(format!("{:04}-{:02}-{:02} {:02}:{:02}:{:02}", c.y, c.mo, c.d, c.h, c.mi, c.s));
+            let via_text: Vec<Result<Option<bool>, String>> = vec![ask_with(CompareOperator::LessThan, &text), ask_with(CompareOperator::Equal, &text), ask_with(CompareOperator::GreaterThan, &text), ask_with(CompareOperator::LessThanOrEqual, &text), ask_with(CompareOperator::GreaterThanOrEqual, &text), ask_with(CompareOperator::NotEqual, &text)];
+            let direct: Vec<Option<bool>> = vec![Some(lt), Some(eq), Some(gt), Some(le), Some(ge), Some(ne)];
+            obs.hit("where-pair:timestamp-vs-text");
+            if via_text.iter().map(|x| x.clone().ok().flatten()).collect::<Vec<_>>() != direct { push("where-timestamp-vs-text", format!("a={} against the text {}: < = > <= >= != answered {:?}, against the timestamp of that instant {:?}", show(a), show(&text), via_text, direct)); }
+        }
+    }
 }
 
 fn check_reflexive(a: &Value, out: &mut Vec<Violation>) {
